@@ -18,6 +18,9 @@ class PredRaise(Exception):
     pass
 
 
+RAISES = [PredRaise, StopIteration, AttributeError, IndexError]
+
+
 def kind_of(e):
     if isinstance(e, BoboEventComplex):
         return 'c'
@@ -55,7 +58,11 @@ def mk_pred_fn(toks):
 
         def f(e, h):
             if e.data == k:
-                raise PredRaise(k)
+                # the class varies with k: some exception classes have a meaning of their own to the interpreter
+                # (StopIteration ends an iterator, AttributeError / IndexError are swallowed by getattr-with-default and
+                # by the sequence-iteration protocol) and a rewrite of the calling code may let one of them be taken
+                # for something else than "the predicate raised"
+                raise RAISES[k % len(RAISES)](k)
             return inner(e, h)
         return f
     raise ValueError('bad predicate ' + ':'.join(toks))
@@ -83,6 +90,17 @@ def ungrp(s):
 
 
 def mk_pattern(spec):
+    # one pattern text = ONE pattern object inside a configuration (a pattern defined once and given to several phenomena)
+    if _SHARED['on']:
+        import json as _json
+        key = ('pattern', _json.dumps(spec, sort_keys=True, default=str))
+        if key not in _SHARED['cache']:
+            _SHARED['cache'][key] = _mk_pattern(spec)
+        return _SHARED['cache'][key]
+    return _mk_pattern(spec)
+
+
+def _mk_pattern(spec):
     blocks = []
     for (g, fl, preds) in spec['blocks']:
         blocks.append(BoboPatternBlock(
